@@ -151,12 +151,16 @@ Definition ws_path (c : cfg) (p : bytes) : option bytes :=
     end
   else Some p.
 
+(* the xtolower loop over foundHost, then the whitespace policy applied to the host *)
+Definition lower_host (c : cfg) (host : bytes) : bytes :=
+  let h1 := map xtolower host in
+  if existsb w_space h1
+  then match c_ws c with WsStrip => filter (fun x => negb (xisspace x)) h1 | _ => h1 end
+  else h1.
+
 Definition finish (c : cfg) (ipq : bytes -> ipres) (sch : scheme) (login host : bytes) (port : N)
            (urlpath : bytes) : option uri :=
-  let h1 := map xtolower host in
-  let h2 := if existsb w_space h1
-            then match c_ws c with WsStrip => filter (fun x => negb (xisspace x)) h1 | _ => h1 end
-            else h1 in
+  let h2 := lower_host c host in
   if c_check c && negb (forallb (hostchars c) h2) then None else
   let h3 := strip_td h2 in
   if has_dotdot h3 || starts_dot h3 then None else
@@ -249,28 +253,33 @@ Definition split_host_port (fh : bytes) : bytes * option bytes :=
       end
   end.
 
+(* everything after the login has been cut off foundHost *)
+Definition after_login (c : cfg) (ipq : bytes -> ipres) (sch : scheme) (login fh1 urlpath : bytes) : option uri :=
+  let '(h, ptxt) := split_host_port fh1 in
+  (* Bug 3183 check: made after the bracket strip, before the port is cut off *)
+  if (match fh1 with 91 :: _ => match h with [] => true | _ => false end
+                   | [] => true | _ => false end) then None else
+  match (match ptxt with
+         | Some p => port_digits p 0
+         | None => Some (match default_port sch with Some d => d | None => 0 end)
+         end) with
+  | None => None
+  | Some port => finish c ipq sch login h port urlpath
+  end.
+
+(* urlpath: an implied "/" unless the text after the authority starts with one; up to CR / LF *)
+Definition urlpath_of (src : bytes) : bytes :=
+  (match src with 47 :: _ => [] | _ => [slash] end) ++ fst (span (fun c => negb (is_crlf c)) src).
+
 Definition parse_url (c : cfg) (ipq : bytes -> ipres) (sch : scheme) (rest : bytes) : option uri :=
   match tok_skip [slash; slash] rest with
   | (false, _) => None
   | (true, B) =>
       let url := cstr B in                                    (* B.c_str() *)
       let '(fh0, src) := span (fun c => negb (host_delim c)) url in
-      let urlpath := (match src with 47 :: _ => [] | _ => [slash] end)
-                     ++ fst (span (fun c => negb (is_crlf c)) src) in
-      let '(login, fh1) := match split_last 64 fh0 with
-                           | Some (a, b) => (unesc_list a, b)       (* rfc1738_unescape(login) *)
-                           | None => ([], fh0)
-                           end in
-      let '(h, ptxt) := split_host_port fh1 in
-      (* Bug 3183 check: made after the bracket strip, before the port is cut off *)
-      if (match fh1 with 91 :: _ => match h with [] => true | _ => false end
-                       | [] => true | _ => false end) then None else
-      match (match ptxt with
-             | Some p => port_digits p 0
-             | None => Some (match default_port sch with Some d => d | None => 0 end)
-             end) with
-      | None => None
-      | Some port => finish c ipq sch login h port urlpath
+      match split_last 64 fh0 with
+      | Some (a, b) => after_login c ipq sch (unesc_list a) b (urlpath_of src)   (* rfc1738_unescape(login) *)
+      | None => after_login c ipq sch [] fh0 (urlpath_of src)
       end
   end.
 
